@@ -191,6 +191,7 @@ def sample_api(r, forms=None, shapes=None, pkgidx=None, transport="grpc", other_
         dotted = [f"{first}," + ",".join(getattr(req, "_dotted", []))] if getattr(req, "_dotted", None) else []
         if other_package and form == "unary":
             inp = "." + info["other_package"] + ".SharedRequest"
+            dotted = []                 # the request is another message now: the shape's signature entries do not exist in it
         if form == "unary":
             svc.rpc(rpc, inp, item.fqn, http=("post", "/v1/{name=items/*}:get"), body="*", sigs=["name"] + dotted)
         elif form == "paged":
@@ -227,7 +228,24 @@ def sample_api(r, forms=None, shapes=None, pkgidx=None, transport="grpc", other_
         info["services"]["Archive"] = ["GetArchive"]; info["forms"]["GetArchive"] = "unary"
         info["host2"] = "archive-" + host
     req = api.request(f"transport={transport}", extra_files=extra, to_generate=[f.proto.name])
+    check_signatures(req)
     return req, info
+
+
+def check_signatures(req):
+    """Well-formedness protoc does not check: every google.api.method_signature entry names a (nested) field of the rpc's
+    request message. A candidate that fails is a harness mistake and is rejected as apigen.Invalid, never reported."""
+    msgs = index_messages(req)
+    for fp, s in target_services(req):
+        for m in s.method:
+            for sig in m.options.Extensions[client_pb2.method_signature]:
+                for entry in [e for e in sig.split(",") if e]:
+                    cur = msgs.get(m.input_type)
+                    for part in entry.strip().split("."):
+                        fld = next((x for x in cur.field if x.name == part), None) if cur is not None else None
+                        if fld is None:
+                            raise apigen.Invalid(f"method_signature entry {entry!r} of {s.name}.{m.name} names no field of {m.input_type}")
+                        cur = msgs.get(fld.type_name) if fld.type == F.TYPE_MESSAGE else None
 
 
 # ------------------------------------------------------------------ reference facts from the input descriptors
